@@ -362,7 +362,34 @@ func (w world) RunCase(t *tape.Tape, st *super.Stats) *super.Violation {
 	// base text
 	var base string
 	kind := t.Pick(6, 2, 1, 4)
+	if t.Rare(40) {
+		kind = 4
+	}
 	switch kind {
+	case 4: // a big or very deep text (one parse, no sweep): recursion depth, repeated re-scanning
+		var b strings.Builder
+		b.WriteString("module big { namespace \"urn:big\"; prefix big;\n")
+		n := 500 + t.Draw(3000)
+		switch t.Draw(5) {
+		case 0:
+			b.WriteString(strings.Repeat("container c { ", n) + strings.Repeat("} ", n-t.Draw(2)))
+		case 1:
+			b.WriteString("description \"a\"" + strings.Repeat(" + \"b\"", n) + ";")
+		case 2:
+			b.WriteString("description \"" + strings.Repeat("x", 100*n) + "\";")
+		case 3:
+			for i := 0; i < n; i++ {
+				fmt.Fprintf(&b, "leaf l%d { type string; description \"line1\n      line2\n\tline3\"; }\n", i)
+			}
+		case 4:
+			b.WriteString(strings.Repeat("/* c */ ", n) + strings.Repeat("// c\n", n))
+		}
+		b.WriteString("\n}\n")
+		base = b.String()
+		if t.Coin() {
+			base = base[:t.Draw(len(base))]
+		}
+		inc("base:big_or_deep")
 	case 0, 1, 3:
 		set := genyang.GenerateSet(t, kind == 1)
 		m := set.Mods[t.Draw(len(set.Mods))]
@@ -411,6 +438,9 @@ func (w world) RunCase(t *tape.Tape, st *super.Stats) *super.Violation {
 	var ins []input
 	shared := false
 	op := t.Pick(3, 4, 3, 2, 1, 1, 1)
+	if kind == 4 {
+		op = 0
+	}
 	switch op {
 	case 0: // no fault
 		ins = []input{{"sim.yang", base}}
@@ -514,8 +544,8 @@ func (w world) RunCase(t *tape.Tape, st *super.Stats) *super.Violation {
 		n := 1 + t.Draw(6)
 		for k := 0; k < n && v == nil; k++ {
 			i := t.Draw(len(ins))
-			if i >= len(outs) {
-				continue
+			if i >= len(outs) || len(ins[i].text) > 8192 {
+				continue // (big texts are for the free-running mode: a schedule-mode parse costs ~10 us per byte)
 			}
 			currentInput = ins[i].text
 			o, sv, steps, switches := runScheduled(ins[i], withCard, t)
